@@ -19,7 +19,11 @@ pub broadcast axiom fn ax_lt(a: R, b: R) ensures #[trigger] lt_s(a, b) == (a.val
 pub broadcast axiom fn ax_le(a: R, b: R) ensures #[trigger] le_s(a, b) == (a.val() <= b.val());
 pub broadcast axiom fn ax_gt(a: R, b: R) ensures #[trigger] gt_s(a, b) == (a.val() > b.val());
 pub broadcast axiom fn ax_ge(a: R, b: R) ensures #[trigger] ge_s(a, b) == (a.val() >= b.val());
+// arithmetic only: says nothing about the comparison symbols, so contracts that mention eq_s / le_s / ... stay NaN-faithful
 pub broadcast group field_axioms {
     ax_zero, ax_one, ax_from_isize, ax_add, ax_sub, ax_mul, ax_neg, ax_div, ax_inv, ax_sqrt,
+}
+// comparisons decide the order on `val` (total order: excludes NaN) — used only where a clause says so
+pub broadcast group order_axioms {
     ax_eq, ax_lt, ax_le, ax_gt, ax_ge,
 }
